@@ -43,7 +43,7 @@ EXPLANATION = (
     "concatenated frame (pandas)."
 )
 # obligations added during the build phase (seeding rounds, twins, mutation analysis)
-ADDED_IN_BUILD = ' Also: (b) the minimum size of a scorer is never read before the scorer was fitted on the current data; the cost adapters are run with a history (fit on other data, evaluate, fit on X) and their value must be the defining cost differences on the CURRENT data (C06.a re-run); (a) no set_params / reset / attribute store on an object the user handed in as a hyper-parameter (adapters with and without a fixed parameter, all detectors; arbitrary user objects); (e) fit_predict / fit_transform are fit(X, y) followed by predict / transform of the same X; (g) FIT-ALWAYS-FITS - in both base-class fit wrappers every returning path stores the data, runs _fit on the (normalised) argument and sets _is_fitted (must-pass-through over the statement tree: no shortcut on object identity).'
+ADDED_IN_BUILD = ' Also: (b) the minimum size of a scorer is never read before the scorer was fitted on the current data; the cost adapters are run with a history (fit on other data, evaluate, fit on X) and their value must be the defining cost differences on the CURRENT data (C06.a re-run); (a) no set_params / reset / attribute store on an object the user handed in as a hyper-parameter (adapters with and without a fixed parameter, all detectors; arbitrary user objects); (e) fit_predict / fit_transform are fit(X, y) followed by predict / transform of the same X; (g) FIT-ALWAYS-FITS - in both base-class fit wrappers every returning path stores the data, runs _fit on the (normalised) argument and sets _is_fitted (must-pass-through over the statement tree: no shortcut on object identity). (h) NO-PROCESS-STATE over every function of the package: no mutable default changed in place, no module-level object changed from a function, no memoising decorator. FIT-ALWAYS-FITS unfitted-first (F-27): the scorers\' fit marks the object unfitted before it stores the data and runs _fit; fit_predict / fit_transform that run _fit themselves must store the data.'
 EXPLANATION = EXPLANATION + ADDED_IN_BUILD
 
 ASSUMPTIONS = [
@@ -76,6 +76,7 @@ def check(ctx):
     ctx.guard("C10.e UPDATE-IS-REFIT", "fit_predict", lambda: fit_then(ctx, det_base))
     ctx.guard("C10.a HP-FROZEN", "derived-scorers", lambda: derived_alias(ctx))
     ctx.guard("C10.g FIT-ALWAYS-FITS", "wrappers", lambda: fit_always_fits(ctx, det_base, sc_base))
+    ctx.guard("C10.g FIT-ALWAYS-FITS", "failed-refit", lambda: failed_refit_leaves_unfitted(ctx, sc_base))
     ctx.guard("C10.b REFIT-BEFORE-EVALUATE", "adapters-with-history", lambda: shared_adapter_history(ctx))
     ctx.guard("C10.a HP-FROZEN", "user-objects", lambda: user_objects_not_reconfigured(ctx))
     ctx.guard("C10.h NO-PROCESS-STATE", "package", lambda: no_process_state(ctx))
@@ -308,6 +309,55 @@ def fit_always_fits(ctx, det_base, sc_base):
                 ctx.check(ok, rule, f"{cls.name}.fit|_fit-argument", f.loc(x), "self._fit receives the (normalised) argument of this call", found=norm_src(x))
 
 
+def _unconditional(stmts):
+    """the statements of a block that run on every execution of it, in order, looking through wrappers that do not
+    branch (with, try body, `if <constant>`); stops at the first statement that may leave or split the flow"""
+    for st in stmts:
+        if isinstance(st, ast.With):
+            yield from _unconditional(st.body)
+        elif isinstance(st, ast.Try):
+            yield from _unconditional(st.body)
+        elif isinstance(st, ast.If) and isinstance(st.test, ast.Constant):
+            yield from _unconditional(st.body if st.test.value else st.orelse)
+        else:
+            yield st
+
+
+def failed_refit_leaves_unfitted(ctx, sc_base):
+    """F-27.  `evaluate` range-checks the cuts against the data stored by the LATEST call of fit and scores them on what
+    `_fit` precomputed.  If a refit raises inside `_fit` (a fixed parameter that does not match the new width, say), the
+    two disagree unless the scorer was marked unfitted first: valid-looking cuts are scored on the OLD data, larger ones
+    end in an IndexError.  Obligation: in the scorers' public fit, `self._is_fitted = False` runs unconditionally before
+    the data are stored and before `_fit` is called."""
+    rule = "C10.g FIT-ALWAYS-FITS"
+    f = sc_base.methods.get("fit")
+    if f is None:
+        ctx.undecided(rule, f"{sc_base.name}.fit|unfitted-first", sc_base.module.relpath, "the base class has no fit method")
+        return
+    me = self_name(f)
+
+    def is_store(st, attr, const=None):
+        if not isinstance(st, ast.Assign):
+            return False
+        if const is not None and not (isinstance(st.value, ast.Constant) and st.value.value is const):
+            return False
+        return any(isinstance(t, ast.Attribute) and isinstance(t.value, ast.Name) and t.value.id == me and t.attr == attr for t in st.targets)
+
+    def touches_state(st):
+        if is_store(st, "_X"):
+            return True
+        return any(isinstance(x, ast.Call) and isinstance(x.func, ast.Attribute) and isinstance(x.func.value, ast.Name) and x.func.value.id == me and x.func.attr in ("_fit",) for x in ast.walk(st))
+
+    seq = list(_unconditional(f.node.body))
+    first_touch = next((i for i, st in enumerate(seq) if touches_state(st)), None)
+    reset = next((i for i, st in enumerate(seq) if is_store(st, "_is_fitted", False) or (isinstance(st, ast.Expr) and isinstance(st.value, ast.Call) and isinstance(st.value.func, ast.Attribute) and st.value.func.attr == "reset" and isinstance(st.value.func.value, ast.Name) and st.value.func.value.id == me)), None)
+    if first_touch is None:
+        ctx.undecided(rule, f"{sc_base.name}.fit|unfitted-first", f.loc(), "no unconditional statement of fit stores the data or calls _fit (unrecognised shape of fit)")
+        return
+    ok = reset is not None and reset < first_touch
+    ctx.check(ok, rule, f"{sc_base.name}.fit|unfitted-first", f.loc(seq[first_touch]), "the scorer is marked unfitted before the new data are stored and _fit runs: a refit that raises cannot leave the precomputed state of an earlier fit usable next to the new data (evaluate would range-check against one and score on the other)", found=("self._is_fitted = False first" if ok else "the data are stored / _fit is called while _is_fitted may still be True from an earlier fit"), expected="self._is_fitted = False before self._X = X and self._fit(...)")
+
+
 def fit_then(ctx, det_base):
     """fit_predict(X, y) and fit_transform(X, y) are fit(X, y) followed by predict(X) / transform(X) on the same object:
     the convenience entry points give what the two-step history gives (syntactic: one return statement each)."""
@@ -324,6 +374,17 @@ def fit_then(ctx, det_base):
 
         thens = [v_ for v_ in return_exprs(f) if isinstance(v_, ast.Call) and isinstance(v_.func, ast.Attribute) and v_.func.attr == then]
         if len(fits) != 1 or len(thens) != 1:
+            # a convenience entry point that goes to the core methods itself: it is a fit path of its own and owes what
+            # the public fit owes - in particular it records the data (update merges the new batch with self._X)
+            core = [n for n in ast.walk(f.node) if isinstance(n, ast.Call) and isinstance(n.func, ast.Attribute) and n.func.attr == "_fit" and isinstance(n.func.value, ast.Name) and n.func.value.id == sn]
+            if not fits and core:
+                def stores_x(st, me=sn):
+                    return isinstance(st, ast.Assign) and any(isinstance(t, ast.Attribute) and isinstance(t.value, ast.Name) and t.value.id == me and t.attr == "_X" for t in st.targets)
+
+                st_, node_ = _pass_through(f.node.body, stores_x)
+                if st_ != "CALLED":
+                    ctx.violation(rule, name, f.loc(core[0]), f"{name} runs self._fit itself instead of self.fit and never stores the data in self._X: a later update() merges the new batch with the data of an EARLIER fit (or with None), so the refit depends on the history before this call", found=f"self._fit(...) without self._X = ... in {name}", expected=f"self.fit(X, y).{then}(X)")
+                    continue
             ctx.undecided(rule, name, f.loc(), f"{name} is not one self.fit(...) followed by one returned .{then}(...) ({len(fits)} fits, {len(thens)} returns)")
             continue
         fa = [ast.unparse(a_) for a_ in fits[0].args] + [f"{k.arg}={ast.unparse(k.value)}" for k in fits[0].keywords]
